@@ -255,6 +255,13 @@ def g_shards(tier):
     total = len(_KSUB_CACHE)
     for start in range(0, total, 64):
         out.append(('G', 'ksub', 0, start, min(total, start + 64)))
+    # tall and flat tables with repeated rows: every multiset of n row patterns over m columns
+    # (rows in non-decreasing pattern order), and the transposes
+    for m, n in (MULTIROW_QUICK if tier == 'quick' else MULTIROW_THOROUGH):
+        total = _ncr(n + (1 << m) - 1, n)
+        for t in (0, 1):
+            for start in range(0, total, 128):
+                out.append(('G', 'multirow', m * 1000 + n * 10 + t, start, min(total, start + 128)))
     t = len(tiny_tables())
     arity = 2 if tier == 'quick' else 3
     total = t ** arity * 2
@@ -263,7 +270,26 @@ def g_shards(tier):
     return out
 
 
+MULTIROW_QUICK = ((3, 6), (3, 7), (2, 8), (2, 10))
+MULTIROW_THOROUGH = ((3, 5), (3, 6), (3, 7), (3, 8), (3, 9), (3, 10), (2, 7), (2, 8), (2, 9),
+                     (2, 10), (2, 12), (2, 14), (4, 5), (4, 6))
+_MULTIROW_CACHE = {}
+
+
+def multirow(k, idx):
+    import itertools
+    m, n, t = k // 1000, (k % 1000) // 10, k % 10
+    if (m, n) not in _MULTIROW_CACHE:
+        _MULTIROW_CACHE.clear()
+        _MULTIROW_CACHE[(m, n)] = list(itertools.combinations_with_replacement(range(1 << m), n))
+    pats = _MULTIROW_CACHE[(m, n)][idx]
+    rows = [tuple(bool(p >> j & 1) for j in range(m)) for p in pats]
+    return [tuple(c) for c in zip(*rows)] if t else rows
+
+
 def g_rows(kind, k, idx):
+    if kind == 'multirow':
+        return multirow(k, idx)
     if kind == 'circulant':
         return circulant(k, idx)
     if kind == 'toeplitz':
